@@ -95,20 +95,41 @@ func stringToInt(ss string) (int64, error) {
 	if ss == "" {
 		return 0, nil
 	}
-	if ss == "-0" {
-		return 0, strconv.ErrSyntax
-	}
-	if len(ss) > 2 {
-		switch ss[:2] {
-		case "0x", "0X":
-			return strconv.ParseInt(ss[2:], 16, 64)
-		case "0b", "0B":
-			return strconv.ParseInt(ss[2:], 2, 64)
-		case "0o", "0O":
-			return strconv.ParseInt(ss[2:], 8, 64)
+	if len(ss) > 2 && ss[0] == '0' {
+		base := 0
+		switch ss[1] {
+		case 'x', 'X':
+			base = 16
+		case 'b', 'B':
+			base = 2
+		case 'o', 'O':
+			base = 8
+		}
+		if base != 0 {
+			// no sign is allowed after the prefix; values that do not fit are handled by the float path
+			i, err := strconv.ParseUint(ss[2:], base, 63)
+			return int64(i), err
 		}
 	}
-	return strconv.ParseInt(ss, 10, 64)
+	i, err := strconv.ParseInt(ss, 10, 64)
+	if err == nil && i == 0 && ss[0] == '-' {
+		// negative zero is not an integer value
+		return 0, strconv.ErrSyntax
+	}
+	return i, err
+}
+
+// parseNonDecimalFloat parses the digits of a 0x/0o/0b literal of any length and rounds to the nearest double.
+func parseNonDecimalFloat(digits string, base int) (float64, error) {
+	if digits == "" || digits[0] == '+' || digits[0] == '-' {
+		return 0, strconv.ErrSyntax
+	}
+	n, ok := new(big.Int).SetString(digits, base)
+	if !ok {
+		return 0, strconv.ErrSyntax
+	}
+	f, _ := new(big.Float).SetInt(n).Float64()
+	return f, nil
 }
 
 func (s asciiString) _toInt(trimmed string) (int64, error) {
@@ -134,6 +155,17 @@ func (s asciiString) _toFloat(trimmed string) (float64, error) {
 	// Go allows underscores in numbers, when parsed as floats, but ECMAScript expect them to be interpreted as NaN.
 	if strings.ContainsRune(trimmed, '_') {
 		return 0, strconv.ErrSyntax
+	}
+
+	if len(trimmed) > 2 && trimmed[0] == '0' {
+		switch trimmed[1] {
+		case 'x', 'X':
+			return parseNonDecimalFloat(trimmed[2:], 16)
+		case 'b', 'B':
+			return parseNonDecimalFloat(trimmed[2:], 2)
+		case 'o', 'O':
+			return parseNonDecimalFloat(trimmed[2:], 8)
+		}
 	}
 
 	// Hexadecimal floats are not supported by ECMAScript.
